@@ -1,6 +1,9 @@
 package wsim
 
-import "fmt"
+import (
+	"encoding/json"
+	"fmt"
+)
 
 // C03 — the reader decodes any conformant peer stream.
 
@@ -56,7 +59,46 @@ func genC03(r *PRNG, tier string) *Scenario {
 	}
 	scn.Links = []Link{l}
 	scn.Net = NetCfg{DefCap: genCap(r)}
+	switch r.Intn(6) {
+	case 0:
+		// the write side of the reading connection is broken (its first write fails, so every pong
+		// and the close echo fail): a conformant stream must still be delivered in full
+		scn.Class = "conformant-write-side-broken"
+		f := OpFault{Side: "w", AfterHead: true, K: r.Range(0, 2), Kind: r.Pick([]int{fErr, fErr, fTimeout, fShort}), N: 1}
+		if realIsServer {
+			scn.Net.Conns = []ConnCfg{{FaultsB: []OpFault{f}}}
+		} else {
+			f.K += 1 // (the client's first write-side op after its request is the deadline reset of Dial)
+			scn.Net.Conns = []ConnCfg{{FaultsA: []OpFault{f}}}
+		}
+	case 1:
+		// two connections reading compressed messages at the same time (they share the
+		// process-wide inflater pool)
+		if comp && style != "json" {
+			scn.Class = "conformant-two-connections"
+			l2 := cloneLink(&scn.Links[0])
+			for i := range l2.Script {
+				if l2.Script[i].Kind == "msg" {
+					l2.Script[i].Pay.Seed ^= 0x9e37
+					l2.Script[i].Comp = 1 + r.Intn(4)
+				}
+			}
+			for i := range scn.Links[0].Script {
+				if scn.Links[0].Script[i].Kind == "msg" {
+					scn.Links[0].Script[i].Comp = 1 + r.Intn(4)
+				}
+			}
+			scn.Links = append(scn.Links, *l2)
+		}
+	}
 	return scn
+}
+
+func cloneLink(l *Link) *Link {
+	b, _ := json.Marshal(l)
+	var c Link
+	_ = json.Unmarshal(b, &c)
+	return &c
 }
 
 // expectedMsgs lists the complete, conformant data messages a script encodes.
@@ -128,17 +170,28 @@ func oracleC03(run *Run) { oracleConformant(run, "C03") }
 // script encodes must have been delivered, then the close reported.
 func oracleConformant(run *Run, prop string) {
 	commonChecks(run)
-	l := &run.Scn.Links[0]
-	e := realOfLink(run, 0)
+	for li := range run.Scn.Links {
+		oracleConformantLink(run, prop, li)
+	}
+	for _, p := range run.Panics {
+		run.fail(prop, "panic", "panic", "%s", p)
+	}
+}
+
+func oracleConformantLink(run *Run, prop string, li int) {
+	l := &run.Scn.Links[li]
+	e := realOfLink(run, li)
 	if e == nil {
-		run.fail("HARNESS", "no-connection", "hs", "handshake with the scripted peer did not produce a connection")
+		if run.Scn.Class != "conformant-write-side-broken" {
+			run.fail("HARNESS", "no-connection", "hs", "handshake with the scripted peer did not produce a connection")
+		}
 		return
 	}
-	_, exps := ExpandScript(l.Script, e.IsServer, run.Scn.Seed)
+	_, exps := ExpandScript(l.Script, e.IsServer, run.Scn.Seed+uint64(li))
 	want := expectedMsgs(exps)
 	rt := findTask(e, "reader")
 	obs, _ := observations(rt)
-	who := fmt.Sprintf("reader(server=%v)", e.IsServer)
+	who := fmt.Sprintf("reader(link=%d,server=%v)", li, e.IsServer)
 	term := ""
 	for _, o := range obs {
 		if o.Kind == "join" {
@@ -161,8 +214,5 @@ func oracleConformant(run *Run, prop string) {
 		}
 	} else {
 		run.fail(prop, "no-terminal-error", "terminal", "%s: the close frame was not reported", who)
-	}
-	for _, p := range run.Panics {
-		run.fail(prop, "panic", "panic", "%s", p)
 	}
 }
